@@ -34,8 +34,8 @@ TGet    == Ev.ev = "get" /\ Get(Ev.h, Ev.k) /\ After(Ev.h) /\ (Ev.out = "ok" => 
 Step == /\ ti <= NT /\ l <= Len(Tr)
         /\ (TNewX \/ TNew \/ TReopen \/ TClose \/ TPickle \/ TPut \/ TGet)
         /\ l' = l + 1 /\ ti' = ti
-Reset == /\ file' = [exists |-> FALSE, hdr |-> NoHdr, recs |-> <<>>]
-         /\ hs' = [h \in Handle |-> [mode |-> "none", toc |-> {}, n |-> 0, hdr |-> NoHdr]]
+Reset == /\ file' = [exists |-> FALSE, hdr |-> NoHdr, recs |-> <<>>, gen |-> 0]
+         /\ hs' = [h \in Handle |-> [mode |-> "none", toc |-> {}, n |-> 0, g |-> 0, hdr |-> NoHdr]]
          /\ last' = [act |-> "init", out |-> "ok"]
 NextTrace == ti' = ti + 1 /\ l' = 1 /\ Reset
 Finish == /\ ti <= NT /\ l = Len(Tr) + 1
